@@ -23,7 +23,7 @@ from harness.adapters import vary as V
 from harness.props import _tree_common as G
 
 MANIFEST_ENTRY = {
-    "text": "Lean theorems over an executable model of the parameter holders and the variator (update_nested_dictionary / _merge_variation, alter_parameter at the three holder kinds, unpack_parameter_variations, vary_parameter_values): upd_varied / upd_frame (a nested update writes exactly the listed leaf paths: those hold the listed value, every other leaf keeps its value, dictionaries stay dictionaries), alter_frame_other (a holder alteration leaves every other key untouched), unpack_slice (set i receives exactly the i-th listed value of every described leaf), vw_frame / vw_sets (virtual-world sets: n sets, simulation settings unchanged except the output folder out/i, programs and outputs unchanged), baseline_unchanged and names_distinct for the programs and methods levels, out_folder. base_not_modified is a statement about aliasing: it is discharged on every run by the deep-equality oracle on the real objects (base dictionaries and base holder before/after), as DESIGN 5.19 plans. The model is tied on every run to the real classes on base parameters built by the real intake from the repo's default files, with generated sensitivity descriptions at all three levels, and the property's clauses are evaluated directly on the implementation's sets.",
+    "text": "Lean theorems over an executable model of the parameter holders and the variator (update_nested_dictionary / _merge_variation, alter_parameter at the three holder kinds, unpack_parameter_variations, vary_parameter_values): upd_varied / upd_frame_leaf_and_node (a nested update writes exactly the listed leaf paths), alter_is_nested_update, alter_frame_other, unpack_slice / unpack_direct (set i receives exactly the i-th listed value of every described leaf), vw_sets / vw_frame / vw_varied and vw_described (description -> value for the virtual world: every described leaf path holds vals[i] in set i, every untouched leaf its base value; n sets, settings unchanged except the output folder out/i, programs and outputs unchanged), program_copy / program_in_set / names_present_programs (programs level: the copy P_i is P with the name changed, untouched leaves kept, described leaves at the listed value), method_copy (methods level: other methods kept, the varied method is the nested update of the original stored under m_i, labels updated), baseline_unchanged_*, names_present_no_clash, names_distinct, out_folder, out_folders_distinct; C19_counterexample_names proves the full-strength name clause false (recorded finding F19a; the relatives F19b/F19c are recorded too). base_not_modified is a statement about aliasing: it is discharged on every run by the deep-equality oracle on the real objects (base dictionaries, base holder, description before/after) plus an identity walk asserting that no mutable object is shared between the base holder and any produced set, as DESIGN 5.19 plans. The model is tied on every run to the real classes on base parameters built by the real intake from the repo's default files, with generated sensitivity descriptions at all three levels (a share through get_sensitivity_info, one case per level through SensitivitySimulationManager), and the property's clauses are evaluated directly on the implementation's sets.",
     "design_ref": "DESIGN.md 5.19, 4.4",
     "note": "trusted: Lean kernel + propext/Classical.choice/Quot.sound; the hand-written model, in which a holder is its dictionary plus the sub-parameter mapping (that the real constructor/to_dict round-trips is checked by correspondence, not proved); copy.deepcopy is the identity in the model — aliasing is covered only by the before/after oracle on the real objects; descriptions are assumed well-formed (one list of n values per described leaf); programs that are neither baseline nor varied are dropped by the variator by design",
     "technique": "Lean 4 structural-induction proofs over parameter trees + differential correspondence with the real holder/variator classes + direct oracle incl. deep equality before/after",
@@ -33,6 +33,8 @@ MODULE = "LdarModel.Props.C19"
 FILE = "LdarModel/Props/C19.lean"
 
 SIG_CLASH = "C19:names:clash-with-existing-program"
+SIG_BASECLASH = "C19:baseline-changed:clash-with-varied-name"
+SIG_METHCLASH = "C19:names:method-clash-with-existing-method"
 
 
 def lean(lines):
@@ -60,14 +62,20 @@ def check_constants(ctx):
 # ----------------------------------------------------------------------------------------------
 # base parameters from the real intake
 # ----------------------------------------------------------------------------------------------
-def make_base(rng, defs, scratch, clash=False):
+def make_base(rng, defs, scratch, clash=False, want_files=False):
+    """clash: False | "program" (programs P_OGI, P_OGI_1) | "baseline" (baseline called P_OGI_0) |
+    "method" (methods OGI and OGI_0 in the sensitivity program)"""
     df = T.DEF_FILES
     n_meth = rng.choice([1, 2, 3])
     mnames = rng.sample(G.METHOD_POOL, n_meth)
     baseline = rng.choice(["P_none", "Base", "P none"])
     pnames = rng.sample([p for p in G.NAME_POOL if p != baseline], rng.choice([1, 1, 2]))
-    if clash:
+    if clash is True or clash == "program":
         pnames = ["P_OGI", "P_OGI_1"]
+    elif clash == "baseline":
+        pnames, baseline = ["P_OGI"], "P_OGI_0"
+    elif clash == "method":
+        pnames, mnames = ["P_OGI"], ["OGI", "OGI_0"] + [m for m in mnames if m not in ("OGI", "OGI_0")][:1]
     files = []
     for nm in mnames:
         dep = rng.choice(["mobile", "stationary"])
@@ -77,6 +85,8 @@ def make_base(rng, defs, scratch, clash=False):
     progs = [{"parameter_level": "programs", "program_name": baseline}]
     for j, nm in enumerate(pnames):
         labels = [m for m in mnames if rng.random() < 0.7] or [mnames[0]]
+        if clash == "method":
+            labels = list(mnames)
         f = G.user_subset(rng, defs[df["programs"]], 0.5, skip=G.SPECIAL)
         f.update({"parameter_level": "programs", "program_name": nm, "method_labels": labels})
         progs.append(f)
@@ -85,6 +95,9 @@ def make_base(rng, defs, scratch, clash=False):
     files += progs
     sim = G.user_subset(rng, defs[df["simulation_settings"]], 0.4, skip=G.SPECIAL | {"baseline_program"})
     sim.update({"parameter_level": "simulation_settings", "baseline_program": baseline})
+    if want_files:
+        # the manager resolves these two to paths (get_abs_path): they must be real strings, not placeholders
+        sim.update({"input_directory": "./inputs", "output_directory": "./outputs"})
     files.append(sim)
     vw = G.user_subset(rng, defs[df["virtual_world"]], rng.choice([0.2, 0.8]), skip=G.SPECIAL)
     vw["parameter_level"] = "virtual_world"
@@ -99,7 +112,8 @@ def make_base(rng, defs, scratch, clash=False):
     if r[0] != "ok":
         raise core.InfraError(f"C19: generated base rejected by the intake: {r}")
     full = r[1]
-    return {"programs": full.pop("programs"), "vw": full.pop("virtual_world"), "out": full.pop("outputs"), "sim": full}
+    base = {"programs": full.pop("programs"), "vw": full.pop("virtual_world"), "out": full.pop("outputs"), "sim": full}
+    return (base, files) if want_files else base
 
 
 # ----------------------------------------------------------------------------------------------
@@ -175,27 +189,34 @@ def run_case(ctx, jobs, base, level, n, description, lists_by_target, via_file=N
     req = {"maps": V.maps(), "sim": base["sim"], "programs": base["programs"], "vw": base["vw"], "out": base["out"],
            "baseline": base["sim"].get("baseline_program"), "sens": info["sens"], "level": level, "n": n, "vars": unpacked}
     jobs.append(("vary", req, T.show(rv), inp))
-    if tag == "" and rv[0] == "ok":
+    if tag == "" and rv[0] == "ok":  # (clash / malformed cases are outside the theorems' hypotheses)
         # hypotheses of the Lean frame / varied theorems, evaluated on this (well-formed) case
         if level == "virtual_world":
-            jobs.append(("hyp", [V.maps()["vw"], base["vw"], n, unpacked], "1", inp))
+            jobs.append(("hyp", [V.maps()["vw"], base["vw"], n, unpacked], "virtual_world", inp))
         elif level == "programs":
             for pn, pvars in unpacked.items():
                 pm = dict(V.maps()["prog"])
                 pm["methods"] = {m: V.maps()["method"] for m in base["programs"][pn].get("method_labels", [])}
                 prog = dict(base["programs"][pn])
-                jobs.append(("hyp", [pm, prog, n, pvars], "1", inp))
+                jobs.append(("hypp", [pm, prog, n, pvars, pn], "programs", inp))
     ctx.count(f"vary:{level}:" + ("ok" if rv[0] == "ok" else T.show(rv)))
     if not info["base_dicts_unchanged"]:
         ctx.violate("C19:base-modified:dictionaries", "the base parameter dictionaries differ after producing the sets", inp)
     if not info["base_holder_unchanged"]:
         ctx.violate("C19:base-modified:holder", "the base parameters holder differs after producing the sets", inp)
+    if info["shared_with_base"]:
+        ctx.violate("C19:aliasing:set-shares-object-with-base",
+                    "a produced set shares a mutable object (by identity) with the base holder: "
+                    + str(info["shared_with_base"][:3]), inp)
+    ctx.count("aliasing-walks")
     if not info["description_unchanged"]:
         ctx.violate("C19:description-modified", "the (unpacked) sensitivity description is modified by producing the sets", inp)
     return rv, info
 
 
-def oracle_sets(ctx, base, level, n, lists_by_target, rv, info, inp, expect_clash=False):
+def oracle_sets(ctx, base, level, n, lists_by_target, rv, info, inp, clash=None):
+    """clash: None | "program" | "baseline" | "method" — which recorded name-clash finding a deviation of the
+    name sets belongs to (only the dedicated clash stage passes one)"""
     if rv[0] != "ok":
         ctx.violate(f"C19:valid-rejected:{level}:{rv[1]}", "a well-formed sensitivity description is rejected: " + rv[2][:150], inp)
         return
@@ -226,14 +247,15 @@ def oracle_sets(ctx, base, level, n, lists_by_target, rv, info, inp, expect_clas
             ctx.violate(f"C19:frame:virtual_world:{level}", "virtual world of the set differs from the base", inp)
         progs = s["programs"]
         if baseline not in progs or T.canon(progs[baseline]) != T.canon(base["programs"][baseline]):
-            ctx.violate(f"C19:baseline-changed:{level}", "the baseline program is not carried over unchanged", inp)
+            ctx.violate(SIG_BASECLASH if (clash == "baseline" and level == "programs") else f"C19:baseline-changed:{level}",
+                        "the baseline program is not carried over unchanged", inp)
         if level == "programs":
             want = {baseline}
             for pn, lists in lists_by_target.items():
                 for k in range(n):
                     want.add(f"{pn}_{k}")
             if set(progs) != want or len(progs) != 1 + n * len(lists_by_target):
-                ctx.violate(SIG_CLASH if expect_clash else "C19:names:programs",
+                ctx.violate({"program": SIG_CLASH, "baseline": SIG_BASECLASH}.get(clash, "C19:names:programs"),
                             f"programs of the set are {sorted(progs)} instead of {sorted(want)}", inp)
                 continue
             for pn, lists in lists_by_target.items():
@@ -247,11 +269,21 @@ def oracle_sets(ctx, base, level, n, lists_by_target, rv, info, inp, expect_clas
             sens = info["sens"]
             want = {baseline} | {f"{sens}_{k}" for k in range(n)}
             if set(progs) != want or len(progs) != 1 + n:
-                ctx.violate(SIG_CLASH if expect_clash else "C19:names:methods-level-programs",
+                ctx.violate(SIG_CLASH if clash in ("program", "baseline") else "C19:names:methods-level-programs",
                             f"programs of the set are {sorted(progs)} instead of {sorted(want)}", inp)
                 continue
             bp = base["programs"][sens]
             for k in range(n):
+                # names first, computed WITHOUT overwriting: no method may disappear, labels stay distinct
+                gotp = progs[f"{sens}_{k}"]
+                labels = list(gotp.get("method_labels", []))
+                base_labels = list(bp.get("method_labels", []))
+                if len(gotp["methods"]) != len(bp["methods"]) or (
+                        len(set(map(str, base_labels))) == len(base_labels) and len(set(map(str, labels))) != len(labels)):
+                    ctx.violate(SIG_METHCLASH if clash == "method" else "C19:names:methods",
+                                f"program {sens}_{k}: {len(gotp['methods'])} methods {sorted(gotp['methods'])} with labels {labels} "
+                                f"instead of {len(bp['methods'])} methods with distinct labels (a method was overwritten)", inp)
+                    continue
                 exp = copy.deepcopy(bp)
                 exp["program_name"] = f"{sens}_{k}"
                 for mn, lists in lists_by_target.items():
@@ -414,32 +446,64 @@ def run(ctx):
                     res2 = run_case(ctx, jobs, base, level, n, bad, lbt, tag="malformed")
                     if res2 is not None:
                         ctx.nontrivial.add((level, "malformed", res2[0][0] if res2[0][0] == "ok" else res2[0][1]))
-        # a base whose program names clash with the renaming scheme
+        # bases whose program / baseline / method names clash with the renaming scheme (recorded findings)
         for _ in range(ctx.pick(3, 20)):
-            base = make_base(rng, defs, scratch, clash=True)
-            for level in ("programs", "methods"):
-                n = rng.choice([2, 3])
-                desc, lbt = gen_case(rng, base, level, n)
-                if level == "programs":
-                    desc = [d for d in desc if d["Program Name"] == "P_OGI"] or desc
-                    lbt = {k: v for k, v in lbt.items() if k in [d["Program Name"] for d in desc]}
-                res = run_case(ctx, jobs, base, level, n, desc, lbt, tag="clash")
-                if res is None:
-                    continue
-                rv, info = res
-                inp = {"base": base, "level": level, "n": n, "description": desc, "tag": "clash"}
-                sens_ok = level == "programs" or info["sens"] == "P_OGI"
-                if sens_ok and "P_OGI" in lbt or level == "methods":
-                    oracle_sets(ctx, base, level, n, lbt, rv, info, inp, expect_clash=True)
-                ctx.nontrivial.add((level, "clash", rv[0]))
+            for kind in ("program", "baseline", "method"):
+                base = make_base(rng, defs, scratch, clash=kind)
+                for level in (("methods",) if kind == "method" else ("programs", "methods")):
+                    n = rng.choice([2, 3])
+                    desc, lbt = gen_case(rng, base, level, n)
+                    if level == "programs":
+                        desc = [d for d in desc if d["Program Name"] == "P_OGI"] or desc
+                        lbt = {k: v for k, v in lbt.items() if k in [d["Program Name"] for d in desc]}
+                    if kind == "method":
+                        m = base["programs"]["P_OGI"]["methods"]["OGI"]
+                        d1, l1 = gen_description(rng, m, n, exclude_top=("method_name",), kmax=3)
+                        desc, lbt = [{"Method Name": "OGI", "Method Sensitivity Parameters": d1}], {"OGI": l1}
+                    res = run_case(ctx, jobs, base, level, n, desc, lbt, tag="clash:" + kind)
+                    if res is None:
+                        continue
+                    rv, info = res
+                    inp = {"base": base, "level": level, "n": n, "description": desc, "tag": "clash:" + kind}
+                    if level == "methods" and info["sens"] != "P_OGI":
+                        continue
+                    if level == "programs" and "P_OGI" not in lbt:
+                        continue
+                    oracle_sets(ctx, base, level, n, lbt, rv, info, inp, clash=kind)
+                    ctx.nontrivial.add((level, "clash", kind, rv[0]))
+        # one case per level through the route a sensitivity run really takes (SensitivitySimulationManager)
+        for level in ("virtual_world", "programs", "methods"):
+            base, files = make_base(rng, defs, scratch, want_files=True)
+            n = rng.choice([2, 3])
+            desc, lbt = gen_case(rng, base, level, n)
+            ru = V.real_unpack(level, n, desc)
+            if ru[0] != "ok":
+                continue
+            paths, _ = scratch.write(files)
+            rm = V.real_manager(paths, level, n, ru[1])
+            scratch.drop_last()
+            ctx.evaluations += 1
+            ctx.count("route:SensitivitySimulationManager")
+            inp = {"base": base, "level": level, "n": n, "description": desc, "tag": "manager"}
+            if rm[0] != "ok":
+                ctx.violate(f"C19:wiring:manager:{rm[1]}", "SensitivitySimulationManager fails on a well-formed case: " + rm[2][:150], inp)
+                continue
+            sets = [{k: s0[k] for k in ("sim", "programs", "vw", "out")} for s0 in rm[1]["sets"]]
+            oracle_sets(ctx, base, level, n, lbt, ("ok", sets), {"sens": rm[1]["sens"]}, inp)
+            for s0 in rm[1]["sets"]:
+                want_m = sorted(str(m) for p in s0["programs"].values() for m in p.get("method_labels", []))
+                if s0["methods"] != sorted(set(want_m)) or s0["base_program"] != base["sim"]["baseline_program"]:
+                    ctx.violate("C19:wiring:manager:methods", "set_simulation_parameters: methods / baseline handed to the simulation are not those of the set", inp)
+            ctx.nontrivial.add((level, "manager", n))
         # model on everything that was run
         lines = [op + " " + T.to_line(arg) for (op, arg, _, _) in jobs]
         model = lean(lines)
-        hyp_n = hyp_ok = 0
+        hyp = {}
         for (op, arg, il, inp), ml in zip(jobs, model):
-            if op == "hyp":
-                hyp_n += 1
-                hyp_ok += ml == "1"
+            if op in ("hyp", "hypp"):
+                h = hyp.setdefault(il, [0, 0])
+                h[1] += 1
+                h[0] += ml == "1"
                 if ml not in ("0", "1"):
                     ctx.disagree("hyp", {"op": op}, ml, il)
                 continue
@@ -448,9 +512,15 @@ def run(ctx):
                 ctx.disagree(op, {"op": op, "input": inp if op == "unpack" else {k: inp[k] for k in ("level", "n", "description")},
                                   "base": inp["base"] if op == "vary" else None}, mlc[:500], il[:500])
         ctx.traces += len(jobs)
-        ctx.extra["hypothesis_hit_rate"] = {"varsOK (vw_frame / vw_varied hypotheses) on well-formed cases": [hyp_ok, hyp_n]}
-        if hyp_n and hyp_ok < hyp_n:
-            ctx.note(f"varsOK false on {hyp_n - hyp_ok} of {hyp_n} well-formed cases (theorem hypotheses not met there)")
+        ctx.extra["hypothesis_hit_rate"] = {
+            "vars.wf && varsOK on well-formed virtual_world cases (hypotheses of vw_frame / vw_varied / vw_described)":
+                hyp.get("virtual_world", [0, 0]),
+            "flatD(rename) && vars.wf && varsOK on the renamed copy, per varied program of well-formed programs cases (hypotheses of program_copy)":
+                hyp.get("programs", [0, 0]),
+        }
+        for lvl, (okc, tot) in hyp.items():
+            if okc < tot:
+                ctx.note(f"varsOK false on {tot - okc} of {tot} well-formed {lvl} cases (theorem hypotheses not met there)")
     finally:
         scratch.close()
         shutil.rmtree(sens_dir, ignore_errors=True)
@@ -480,7 +550,8 @@ def replay(ctx, data):
         pk = "Program Sensitivity Parameters" if level == "programs" else "Method Sensitivity Parameters"
         for d in desc:
             lbt[d[nk]] = {p: v for p, v in G.leaves(d[pk])}
-    oracle_sets(ctx, base, level, n, lbt, rv, info, inp, expect_clash=inp.get("tag") == "clash")
+    tag = inp.get("tag") or ""
+    oracle_sets(ctx, base, level, n, lbt, rv, info, inp, clash=tag.split(":", 1)[1] if tag.startswith("clash:") else None)
     if not (info["base_dicts_unchanged"] and info["base_holder_unchanged"]):
         ctx.violate("C19:base-modified", "base modified", inp)
     for v in ctx.violations:
